@@ -33,8 +33,8 @@ Definition expected_skeleton : list string := [
   "    base_prefix = base_prefix.rstrip('/')";
   "path = pathutils.sanitize_path(unsafe_path)";
   "if reverse_proxy is True and len(base_prefix) > 0:";
-  "  if path.startswith(base_prefix):";
-  "    path_new = path.removeprefix(base_prefix)";
+  "  if (path + '/').startswith(base_prefix + '/'):";
+  "    path_new = path[len(base_prefix):] or '/'";
   "    path = path_new";
   "function = getattr(self, 'do_%s' % request_method, None)";
   "if not function:";
